@@ -81,3 +81,19 @@ def replay(ctx, spec, path):
         print("----- %s -----\n%s" % (name, txt))
     print("replay: running the check again (the case above is one atom of its enumeration)")
     return run(ctx, spec)
+
+
+def run_with_e1(ctx, spec):
+    """A property decided by an E2 enumeration plus E1 schedule exploration of one harness: both parts
+    feed one evidence file."""
+    import e1
+    tot, samples, extras = run_modes(ctx, spec["modes"], spec.get("nshards"), mr=spec.get("mr", False))
+    cov = {"evaluations": tot["evaluations"], "distinct_nontrivial": tot["nontrivial"], "rule": spec["rule"],
+           "samples": samples or ["none"], "exhaustive": True, "explanation": spec.get("explanation", "")}
+    cov.update(extras)
+    sub = e1.explore(ctx, spec)
+    cov["schedule_exploration"] = sub
+    cov["evaluations"] += sub.get("complete_executions", 0)
+    cov["exhaustive"] = cov["exhaustive"] and sub.get("exhaustive", False)
+    ctx.assumptions += spec.get("assumptions", [])
+    return runner.finish(ctx, spec.get("level", "exploration"), cov)
